@@ -165,6 +165,8 @@ class Xor(pg.Xor):
                 default=default, 
                 variable=any_proposition.variable
             )
+            # the id was generated, passing the variable on must not turn it into an explicitly given one
+            self.propositions[i].generated_id = any_proposition.generated_id
             
 
     def to_json(self):
